@@ -58,6 +58,50 @@ func genEntValue(r *Rng) Sx {
 	}
 	return L(r.Intn(len(entInts)), A(r.Pick(entStrs)), B(r.Bool()), items)
 }
+
+// small JSON documents: shape 1 a bare integer, 2 the empty string, 3 an empty array, 4 an empty object
+// (documents of one or two bytes); shape 0 (or absent) is the struct above
+var entSmallInts = []int64{0, 7, 42, 99, -9, 5}
+
+func entShape(v Sx) int {
+	if l := sxList(v); len(l) > 4 {
+		return sxInt(l[4])
+	}
+	return 0
+}
+
+// the value to write, the target to read into and its canonical rendering, per shape
+func entTarget(shape int) (interface{}, func() string) {
+	switch shape {
+	case 1:
+		n := new(int64)
+		return n, func() string { return fmt.Sprintf("int:%d", *n) }
+	case 2:
+		t := new(string)
+		return t, func() string { return fmt.Sprintf("str:%q", *t) }
+	case 3:
+		a := new([]int64)
+		return a, func() string { return fmt.Sprintf("arr:%v", *a) }
+	case 4:
+		o := new(struct{})
+		return o, func() string { return "obj" }
+	}
+	v := new(entValue)
+	return v, func() string { return render(v) }
+}
+func entWritten(vs Sx) interface{} {
+	switch entShape(vs) {
+	case 1:
+		return entSmallInts[sxInt(sxNth(vs, 0))%len(entSmallInts)]
+	case 2:
+		return ""
+	case 3:
+		return []int64{}
+	case 4:
+		return struct{}{}
+	}
+	return entValueOf(vs)
+}
 func entValueOf(s Sx) *entValue {
 	v := &entValue{I: entInts[sxInt(sxNth(s, 0))], S: sxStr(sxNth(s, 1)), B: sxBool(sxNth(s, 2))}
 	for _, it := range sxList(sxNth(s, 3)) {
@@ -91,7 +135,16 @@ func genEnt(r *Rng) Sx {
 		if r.Pct(30) {
 			broken = 1 + r.Intn(4)
 		}
-		reqs = append(reqs, L(A(ct), A(ce), genEntValue(r), codec, B(r.Bool()), enc, broken))
+		val := genEntValue(r)
+		if codec == 0 && r.Pct(15) {
+			val = Ls(append(append(Ls{}, sxList(val)...), 1+r.Intn(4))) // a one- or two-byte JSON document
+			if broken == 1 {
+				// half of such a compressed stream still holds the whole document (only the checksum is cut) and a
+				// streaming decoder legitimately succeeds; the model's all-or-nothing inflate oracle does not cover that
+				broken = 2
+			}
+		}
+		reqs = append(reqs, L(A(ct), A(ce), val, codec, B(r.Bool()), enc, broken))
 	}
 	mode := 0
 	if r.Pct(20) || forceConc {
@@ -102,7 +155,7 @@ func genEnt(r *Rng) Sx {
 
 // the body of a request: written by go-restful's own entity writer, then encoded / broken with the standard library
 func entBody(rq Sx) []byte {
-	v := entValueOf(sxNth(rq, 2))
+	v := entWritten(sxNth(rq, 2))
 	rec := httptest.NewRecorder()
 	resp := restful.NewResponse(rec)
 	resp.PrettyPrint(sxBool(sxNth(rq, 4)))
@@ -130,7 +183,11 @@ func entBody(rq Sx) []byte {
 	case 1:
 		b = b[:len(b)/2]
 	case 2:
-		b = append([]byte{0x00, 0xff}, b[2:]...)
+		if len(b) >= 2 {
+			b = append([]byte{0x00, 0xff}, b[2:]...)
+		} else {
+			b = []byte{0x00, 0xff}
+		}
 	case 3:
 		b = []byte("\x01\x02 garbage \xff\xfe")
 	case 4:
@@ -139,23 +196,23 @@ func entBody(rq Sx) []byte {
 	return b
 }
 
-func tryDecode(codec int, b []byte) Sx {
-	var v entValue
+func tryDecode(shape, codec int, b []byte) Sx {
+	v, rend := entTarget(shape)
 	var err error
 	if codec == 0 {
 		d := json.NewDecoder(bytes.NewReader(b))
 		d.UseNumber()
-		err = d.Decode(&v)
+		err = d.Decode(v)
 	} else {
-		err = xml.NewDecoder(bytes.NewReader(b)).Decode(&v)
+		err = xml.NewDecoder(bytes.NewReader(b)).Decode(v)
 	}
 	if err != nil {
 		return Ls{}
 	}
-	return L(A(render(&v)))
+	return L(A(rend()))
 }
 
-func entOracle(body []byte) Sx {
+func entOracle(shape int, body []byte) Sx {
 	opt := func(b []byte, err error) Sx {
 		if err != nil {
 			return Ls{}
@@ -183,7 +240,7 @@ func entOracle(body []byte) Sx {
 	dec := Ls{}
 	for _, st := range streams {
 		for codec := 0; codec < 2; codec++ {
-			dec = append(dec, L(codec, A(string(st)), tryDecode(codec, st)))
+			dec = append(dec, L(codec, A(string(st)), tryDecode(shape, codec, st)))
 		}
 	}
 	return L(A(string(body)), gun, inf, dec, zopen)
@@ -197,8 +254,12 @@ func entContainer() *restful.Container {
 	ws := new(restful.WebService)
 	ws.Path("/e")
 	ws.Route(ws.POST("/echo").To(func(rq *restful.Request, rp *restful.Response) {
-		var v entValue
-		if err := rq.ReadEntity(&v); err != nil {
+		shape := 0
+		if h := rq.HeaderParameter("X-Shape"); h != "" {
+			shape = int(h[0] - '0')
+		}
+		v, rend := entTarget(shape)
+		if err := rq.ReadEntity(v); err != nil {
 			if se, ok := err.(restful.ServiceError); ok {
 				rp.WriteErrorString(se.Code, "E")
 			} else {
@@ -206,7 +267,7 @@ func entContainer() *restful.Container {
 			}
 			return
 		}
-		rp.Write([]byte(render(&v)))
+		rp.Write([]byte(rend()))
 	}))
 	c.Add(ws)
 	return c
@@ -219,6 +280,9 @@ func entServe(c *restful.Container, rq Sx, body []byte) Sx {
 	}
 	if ce := sxStr(sxNth(rq, 1)); ce != "" {
 		hr.Header.Set("Content-Encoding", ce)
+	}
+	if sh := entShape(sxNth(rq, 2)); sh > 0 {
+		hr.Header.Set("X-Shape", itoa(sh))
 	}
 	rec := httptest.NewRecorder()
 	class := 0
@@ -262,7 +326,7 @@ func runEnt(raw Sx) (Sx, Sx) {
 			l = l[:7]
 		}
 		bodies[i] = entBody(Ls(l))
-		full = append(full, append(append(Ls{}, l...), entOracle(bodies[i])))
+		full = append(full, append(append(Ls{}, l...), entOracle(entShape(sxNth(Ls(l), 2)), bodies[i])))
 	}
 	c := entContainer()
 	seq, fresh, conc := Ls{}, Ls{}, Ls{}
